@@ -18,6 +18,7 @@ import os
 import random
 import shutil
 import subprocess
+import time
 
 import common
 from common import lean_obligations, sh, hx, run_model, workdir, NPROC, HARNESS, load_findings
@@ -416,13 +417,50 @@ pub fn verif_parse(input: &str) -> String {
     return q
 
 
-def run_batch(cases, sel, wd, rep):
-    """sel: indices of cases to compile (both layouts). Fills case.beh. Returns (ok, log)."""
-    crate = os.path.join(wd, "batch")
+MAIN_RS = r'''#![allow(warnings)]
+@MODS@
+fn unhex(s: &str) -> String {
+    if s == "=" { return String::new(); }
+    let b: Vec<u8> = (0..s.len() / 2).map(|i| u8::from_str_radix(&s[2 * i..2 * i + 2], 16).unwrap()).collect();
+    String::from_utf8_lossy(&b).to_string()
+}
+/// a parse that does not return (possible when the generated table is wrong) must not block the rest
+fn with_timeout<F: FnOnce() -> String + Send + 'static>(f: F) -> String {
+    let (tx, rx) = std::sync::mpsc::channel();
+    std::thread::Builder::new().stack_size(64 << 20).spawn(move || { let _ = tx.send(f()); }).unwrap();
+    match rx.recv_timeout(std::time::Duration::from_millis(3000)) { Ok(s) => s, Err(_) => "timeout".to_string() }
+}
+fn main() {
+    std::panic::set_hook(Box::new(|_| {}));
+    let args: Vec<String> = std::env::args().collect();
+@QUERIES@
+    let mut hung: std::collections::HashMap<String, usize> = std::collections::HashMap::new();
+    for line in std::fs::read_to_string(&args[1]).unwrap().lines() {
+        let f: Vec<&str> = line.split(' ').collect();
+        let input = unhex(f[2]);
+        if *hung.get(f[0]).unwrap_or(&0) >= 2 { println!("{} P {} skipped-after-timeouts", f[0], f[1]); continue; }
+        let r = match f[0] {
+@PARSES@
+            _ => "?".to_string(),
+        };
+        if r == "timeout" { *hung.entry(f[0].to_string()).or_insert(0) += 1; }
+        println!("{} P {} {}", f[0], f[1], r);
+    }
+    std::process::exit(0);
+}
+'''
+
+
+def run_chunk(cases, sel, wd, tag, target):
+    """Compile the generated parsers of the cases `sel` (both layouts) into one crate and run it.
+    Returns (ok, log, counters); fills case.beh."""
+    counters = {}
+    crate = os.path.join(wd, "batch" + tag)
     src = os.path.join(crate, "src")
     os.makedirs(src, exist_ok=True)
+    pkg = f"gb_{os.getpid()}_{tag}"
     with open(os.path.join(crate, "Cargo.toml"), "w") as fh:
-        fh.write('[package]\nname = "genbatch"\nversion = "0.1.0"\nedition = "2021"\n\n[workspace]\n\n[dependencies]\n'
+        fh.write(f'[package]\nname = "{pkg}"\nversion = "0.1.0"\nedition = "2021"\n\n[workspace]\n\n[dependencies]\n'
                  f'rustemo = {{ path = "{RUSTEMO}" }}\n\n[profile.dev]\nopt-level = 0\ndebug = false\nincremental = false\n')
     shutil.copy("/repo/Cargo.lock", os.path.join(crate, "Cargo.lock"))
     mods = []        # (module name, case index, layout)
@@ -430,75 +468,99 @@ def run_batch(cases, sel, wd, rep):
         for lay in "AF":
             mods.append((f"p{i}{lay.lower()}", i, lay))
     excluded = {}
-    for attempt in range(3):
-        live = [m for m in mods if m[0] not in excluded]
-        for name, i, lay in live:
-            c = cases[i]
-            text = open(c.out[lay]["src"]).read()
-            with open(os.path.join(src, name + ".rs"), "w") as fh:
-                fh.write(text + query_code(c.out[lay]["code"], c.algo == "GLR"))
-        with open(os.path.join(src, "main.rs"), "w") as fh:
-            fh.write("#![allow(warnings)]\n")
-            for name, _, _ in live:
-                fh.write(f"mod {name};\n")
-            fh.write("fn unhex(s: &str) -> String { if s == \"=\" { return String::new(); } "
-                     "let b: Vec<u8> = (0..s.len() / 2).map(|i| u8::from_str_radix(&s[2 * i..2 * i + 2], 16).unwrap()).collect(); "
-                     "String::from_utf8_lossy(&b).to_string() }\n")
-            fh.write("fn main() {\n    std::panic::set_hook(Box::new(|_| {}));\n"
-                     "    let args: Vec<String> = std::env::args().collect();\n")
-            for name, _, _ in live:
-                fh.write(f"    println!(\"{name} {{}}\", {name}::verif_query());\n")
-            fh.write("    for line in std::fs::read_to_string(&args[1]).unwrap().lines() {\n"
-                     "        let f: Vec<&str> = line.split(' ').collect();\n        let input = unhex(f[2]);\n"
-                     "        let r = match f[0] {\n")
-            for name, _, _ in live:
-                fh.write(f"            \"{name}\" => {name}::verif_parse(&input),\n")
-            fh.write("            _ => \"?\".to_string(),\n        };\n        println!(\"{} P {} {}\", f[0], f[1], r);\n    }\n}\n")
-        env = dict(common.ENV, CARGO_TARGET_DIR=BATCH_TARGET)
-        rc, out, err = sh(["cargo", "build", "--offline"], cwd=crate, timeout=3000, env=env)
-        if rc == 0:
-            break
-        # which generated modules do not compile?
-        bad = set()
-        for line in err.splitlines():
-            line = line.strip()
-            if line.startswith("--> src/p"):
-                bad.add(line[len("--> src/"):].split(".rs")[0])
-        if not bad or attempt == 2:
-            return False, err[-3000:]
-        for b in bad:
-            excluded[b] = err
-            os.remove(os.path.join(src, b + ".rs"))
-    for name in excluded:
-        i = int(name[1:-1])
-        cases[i].beh[name[-1].upper()] = {"compile_error": True}
-        rep.count("batch:generated-parser-does-not-compile")
-    live = [m for m in mods if m[0] not in excluded]
-    inp = os.path.join(wd, "inputs.txt")
-    with open(inp, "w") as fh:
-        for name, i, lay in live:
-            for k, s in enumerate(cases[i].inputs):
-                fh.write(f"{name} {k} {hx(s)}\n")
-    exe = os.path.join(BATCH_TARGET, "debug", "genbatch")
+    env = dict(common.ENV, CARGO_TARGET_DIR=target)
+    exe = os.path.join(target, "debug", pkg)
     try:
-        p = subprocess.run([exe, inp], capture_output=True, text=True, timeout=600)
-        lines = p.stdout.splitlines()
-    except subprocess.TimeoutExpired as e:
-        lines = (e.stdout or b"").decode(errors="replace").splitlines() if isinstance(e.stdout, bytes) else (e.stdout or "").splitlines()
-        rep.count("batch:timeout")
-    for name, i, lay in live:
-        cases[i].beh[lay] = {"Q": None, "P": {}}
-    for line in lines:
-        f = line.split(" ", 1)
-        if len(f) < 2 or not f[0].startswith("p"):
-            continue
-        i, lay = int(f[0][1:-1]), f[0][-1].upper()
-        if f[1].startswith("Q"):
-            cases[i].beh[lay]["Q"] = f[1]
-        elif f[1].startswith("P "):
-            _, k, r = f[1].split(" ", 2)
-            cases[i].beh[lay]["P"][int(k)] = r
-    return True, ""
+        for attempt in range(3):
+            live = [m for m in mods if m[0] not in excluded]
+            for name, i, lay in live:
+                c = cases[i]
+                text = open(c.out[lay]["src"]).read()
+                with open(os.path.join(src, name + ".rs"), "w") as fh:
+                    fh.write(text + query_code(c.out[lay]["code"], c.algo == "GLR"))
+            with open(os.path.join(src, "main.rs"), "w") as fh:
+                fh.write(MAIN_RS.replace("@MODS@", "".join(f"mod {n};\n" for n, _, _ in live))
+                         .replace("@QUERIES@", "".join(f'    println!("{n} {{}}", {n}::verif_query());\n' for n, _, _ in live))
+                         .replace("@PARSES@", "".join(f'            "{n}" => with_timeout(move || {n}::verif_parse(&input)),\n'
+                                                      for n, _, _ in live)))
+            rc, out, err = sh(["cargo", "build", "--offline"], cwd=crate, timeout=3000, env=env)
+            if rc == 0:
+                break
+            # which generated modules do not compile?
+            bad = set()
+            for line in err.splitlines():
+                line = line.strip()
+                if line.startswith("--> src/p"):
+                    bad.add(line[len("--> src/"):].split(".rs")[0])
+            if not bad or attempt == 2:
+                return False, err[-3000:], counters
+            for b in bad:
+                excluded[b] = err
+                os.remove(os.path.join(src, b + ".rs"))
+        for name in excluded:
+            i = int(name[1:-1])
+            cases[i].beh[name[-1].upper()] = {"compile_error": True}
+            counters["batch:generated-parser-does-not-compile"] = counters.get("batch:generated-parser-does-not-compile", 0) + 1
+        live = [m for m in mods if m[0] not in excluded]
+        inp = os.path.join(crate, "inputs.txt")
+        with open(inp, "w") as fh:
+            for name, i, lay in live:
+                for k, s in enumerate(cases[i].inputs):
+                    fh.write(f"{name} {k} {hx(s)}\n")
+        try:
+            p = subprocess.run([exe, inp], capture_output=True, text=True, timeout=900)
+            lines = p.stdout.splitlines()
+        except subprocess.TimeoutExpired as e:
+            o = e.stdout or ""
+            lines = (o.decode(errors="replace") if isinstance(o, bytes) else o).splitlines()
+            counters["batch:timeout"] = 1
+        for name, i, lay in live:
+            cases[i].beh[lay] = {"Q": None, "P": {}}
+        for line in lines:
+            f = line.split(" ", 1)
+            if len(f) < 2 or not f[0].startswith("p"):
+                continue
+            i, lay = int(f[0][1:-1]), f[0][-1].upper()
+            if f[1].startswith("Q"):
+                cases[i].beh[lay]["Q"] = f[1]
+            elif f[1].startswith("P "):
+                _, k, r = f[1].split(" ", 2)
+                cases[i].beh[lay]["P"][int(k)] = r
+        return True, "", counters
+    finally:
+        for f in glob.glob(os.path.join(target, "debug", pkg + "*")) + glob.glob(os.path.join(target, "debug", "deps", pkg + "*")):
+            try:
+                os.remove(f)
+            except OSError:
+                pass
+
+
+def run_batch(cases, sel, wd, rep, workers, chunk=36):
+    """sel: indices of cases to compile. Chunks of at most `chunk` cases, one crate each; `workers` crates are
+    built at the same time, each worker with its own (persistent, shared between runs) target directory."""
+    import threading
+    chunks = [sel[k:k + chunk] for k in range(0, len(sel), chunk)]
+    results = [None] * len(chunks)
+
+    def work(w):
+        for k in range(w, len(chunks), workers):
+            try:
+                results[k] = run_chunk(cases, chunks[k], wd, str(k), f"{BATCH_TARGET}{w}")
+            except Exception as e:      # never lose a chunk silently
+                results[k] = (False, f"exception in run_chunk: {e!r}", {})
+    ths = [threading.Thread(target=work, args=(w,)) for w in range(min(workers, len(chunks)))]
+    for t in ths:
+        t.start()
+    for t in ths:
+        t.join()
+    ok, logs = True, []
+    for r in results:
+        ok = ok and r[0]
+        if not r[0]:
+            logs.append(r[1])
+        for k, v in r[2].items():
+            rep.count(k, v)
+    return ok, "\n".join(logs)
 
 
 # ---------------------------------------------------------------------------------------------
@@ -663,21 +725,26 @@ def pick_batch(rng, cases, n_gram):
     return sel
 
 
-def pipeline(rep, cases, rng, n_batch, wd):
+def pipeline(rep, cases, rng, n_batch, wd, workers=1):
+    t0 = time.time()
     run_vgen(cases, wd)
+    t1 = time.time()
     run_driver(cases)
+    t2 = time.time()
     for c in cases:
         evaluate_static(rep, c)
         c.problems_block = any(k == "layouts" for k, _ in c.problems)
     sel = pick_batch(rng, cases, n_batch)
     rep.count("batch:cases", len(sel))
     if sel:
-        ok, log = run_batch(cases, sel, wd, rep)
+        ok, log = run_batch(cases, sel, wd, rep, workers)
         rep.oblige("cargo build of the batch of generated parsers against /repo/rustemo", ok, log[-1500:])
         if not ok:
             rep.violation({"broken": "batch crate build", "log": log[-3000:]}, no_input=True)
         for i in sel:
             evaluate_behaviour(rep, cases[i])
+    rep.notes.append(f"wall: generation+extraction {t1 - t0:.0f}s, Lean driver {t2 - t1:.0f}s, "
+                     f"batch build+run {time.time() - t2:.0f}s")
 
 
 def run(rep, tier, seed):
@@ -688,11 +755,11 @@ def run(rep, tier, seed):
     if not ok:
         rep.violation({"broken": "harness build", "log": log[-3000:]}, no_input=True)
         return
-    n_random, lit_budget, n_batch = (120, 30, 14) if tier == "quick" else (1200, 200, 110)
+    n_random, lit_budget, n_batch, workers = (120, 30, 14, 1) if tier == "quick" else (1200, 200, 110, 4)
     cases = gen_cases(rng, n_random, lit_budget)
     wd = workdir("c08")
     try:
-        pipeline(rep, cases, rng, n_batch, wd)
+        pipeline(rep, cases, rng, n_batch, wd, workers)
     finally:
         if not os.environ.get("VERIF_C08_KEEP"):
             shutil.rmtree(wd, ignore_errors=True)
